@@ -257,27 +257,39 @@ func fieldOf(key string) string {
 
 // C05: transactions are isolated from earlier transactions on the same WAF.
 func C05(run *vf.Run) {
-	run.Rule = "Pool.tla: a pooled Transaction object as a record of fields (default/dirty), predecessor behaviours as tokens that dirty fields, Close and NewTransaction with the reset lists of the code; TLC checks FreshAfterNew and ReadersDead over all histories of predecessors performing up to MaxTokens behaviours each (match, setvar, capture, deny in phase 1-4, every ctl override, pending allow / skip / skipAfter, body spill, response body, no ProcessLogging, Close twice, kept reader, transformation cache) and emits every history; each history is replayed on a real WAF on one goroutine (the pool really hands the same object back: pointer identity is checked), then (1) the reflective snapshot of the recycled object right after NewTransaction is compared field by field with a brand-new transaction, (2) a probe transaction is run on the used WAF and on a fresh WAF and the full observable outcome (per-phase interruptions, fired rules, TX dump, body reader contents, audit record) is compared, (3) a reader kept from before Close must yield no data, (4) the dirty fields observed after each predecessor must lie within Dirties of Pool.tla (binding of the model). Non-trivial = history whose recycled object was really reused"
+	run.Rule = "Pool.tla: a pooled Transaction object as a record of fields (default/dirty), predecessor behaviours as tokens that dirty fields, Close and NewTransaction with the reset lists of the code; TLC checks FreshAfterNew and ReadersDead over all histories of predecessors (one predecessor performing up to 2 - thorough 3 - behaviours, thorough also two predecessors performing one each) (match, setvar, capture, deny in phase 1-4, every ctl override, pending allow / skip / skipAfter, body spill, response body, no ProcessLogging, Close twice, kept reader, transformation cache) and emits every history; each history is replayed on a real WAF on one goroutine (the pool really hands the same object back: pointer identity is checked), then (1) the reflective snapshot of the recycled object right after NewTransaction is compared field by field with a brand-new transaction, (2) a probe transaction is run on the used WAF and on a fresh WAF and the full observable outcome (per-phase interruptions, fired rules, TX dump, body reader contents, audit record) is compared, (3) a reader kept from before Close must yield no data, (4) the dirty fields observed after each predecessor must lie within Dirties of Pool.tla (binding of the model). Non-trivial = history whose recycled object was really reused"
 	run.Exhaustive = true
 	run.Assume("sync.Pool hands the object back on the same goroutine when no GC intervenes (checked per history by pointer identity; histories where it does not are counted as not exercised)")
 	c05Once.Do(func() {
 		plugins.RegisterAuditLogWriter("verifc05", func() plugintypes.AuditLogWriter { return c05AuditWriter{} })
 	})
-	maxPreds := vf.Pick(run, 1, 2)
 	var hists [][][]string
 	var mu sync.Mutex
-	res, err := vf.RunTLC(vf.TLCOpts{Module: "Pool", CfgText: fmt.Sprintf("SPECIFICATION Spec\nCONSTANTS\n  MaxTokens = 2\n  MaxPreds = %d\nINVARIANTS FreshAfterNew ReadersDead Emit\nCHECK_DEADLOCK FALSE\n", maxPreds),
-		Workers: 8, Timeout: 20 * time.Minute,
-		OnOut: func(raw json.RawMessage) {
-			var d struct {
-				Hist [][]string `json:"hist"`
-			}
-			if json.Unmarshal(raw, &d) == nil {
-				mu.Lock()
-				hists = append(hists, d.Hist)
-				mu.Unlock()
-			}
-		}})
+	// quick: one predecessor doing up to 2 behaviours; thorough: one predecessor doing up to 3, and two predecessors doing one each
+	type bound struct{ tokens, preds int }
+	bounds := vf.Pick(run, []bound{{2, 1}}, []bound{{3, 1}, {1, 2}})
+	var res *vf.TLCResult
+	var err error
+	for _, b := range bounds {
+		res, err = vf.RunTLC(vf.TLCOpts{Module: "Pool", CfgText: fmt.Sprintf("SPECIFICATION Spec\nCONSTANTS\n  MaxTokens = %d\n  MaxPreds = %d\nINVARIANTS FreshAfterNew ReadersDead Emit\nCHECK_DEADLOCK FALSE\n", b.tokens, b.preds),
+			Workers: 8, Timeout: vf.Pick(run, 20*time.Minute, 60*time.Minute),
+			OnOut: func(raw json.RawMessage) {
+				var d struct {
+					Hist [][]string `json:"hist"`
+				}
+				if json.Unmarshal(raw, &d) == nil {
+					mu.Lock()
+					hists = append(hists, d.Hist)
+					mu.Unlock()
+				}
+			}})
+		if err != nil || res.Violated != "" || !res.OK() {
+			break
+		}
+		if b != bounds[len(bounds)-1] {
+			run.AddTLC(res)
+		}
+	}
 	if err != nil {
 		run.Inconclusive("Pool: %v", err)
 		return
